@@ -540,6 +540,12 @@ func (vc *VC) SortOf(t types.Type) *Sort {
 	case *types.Array:
 		return vc.ArraySortOf(int(u.Len()), vc.SortOf(u.Elem()))
 	case *types.Struct:
+		if nt, isNamed := t.(*types.Named); isNamed && nt.Obj() != nil && nt.Obj().Pkg() != nil {
+			if pp := nt.Obj().Pkg().Path(); pp != modulePath && !strings.HasPrefix(pp, modulePath+"/") && !transparentExternal[pp] {
+				// a struct type of a library (database handles, mutexes, ...): opaque, its fields are never modelled
+				return vc.UnintSort("X_" + typeKeyName(t))
+			}
+		}
 		name := "S_" + typeKeyName(t)
 		if _, isNamed := t.(*types.Named); !isNamed {
 			if _, isAlias := t.(*types.Alias); !isAlias {
@@ -788,4 +794,13 @@ func (vc *VC) mulT(a, b Term) Term {
 		return App(SInt, "tm", a, b)
 	}
 	return App(a.Sort, "*", a, b)
+}
+
+// transparentExternal: library packages whose struct types are modelled field by field (the code under
+// verification reads and writes their fields, or small functions of theirs are executed from source)
+var transparentExternal = map[string]bool{
+	"github.com/go-spatial/geom":         true,
+	"github.com/go-spatial/geom/slippy":  true,
+	"github.com/tobshub/go-sortedmap":    true,
+	"github.com/wk8/go-ordered-map/v2":   true,
 }
